@@ -215,6 +215,19 @@ func (w *World) Record(kind string, a, b int64) {
 	w.unlock()
 }
 
+// Note records a fault or other noteworthy event in the trace (replay runs
+// only). Never draws from the tape.
+//
+//go:norace
+func (w *World) Note(kind, what string) {
+	if w == nil || !w.TraceOn {
+		return
+	}
+	w.lock()
+	w.Trace = append(w.Trace, TraceEntry{w.Steps, kind, what})
+	w.unlock()
+}
+
 // Seq returns the next global event sequence number (for history stamps).
 //
 //go:norace
